@@ -180,6 +180,7 @@ def check_execution(cfg, ex, marks, leaked):
         P.append(("connect-raised", f"connect() raised {marks['connect_exc']!r}"))
         return P
     produced = fw.produced
+    first_start = marks["calls"][0].get("rx_at_start") if marks.get("calls") else None
     stale_source = None       # first stale acknowledgement seen in this execution
     surfaced = set()          # unsolicited alarms already raised to the caller
     lost_k = beh.index("loss") if "loss" in beh else None
@@ -218,7 +219,7 @@ def check_execution(cfg, ex, marks, leaked):
             continue      # the link is gone: nothing is demanded of later calls (they fail with DeviceError)
         if b == "loss":
             if exc is None:
-                src = releasing_source(produced, consumed, k)
+                src = releasing_source(produced, consumed, k, first_start)
                 if src:
                     stale_source = stale_source or src
                     P.append((f"stale-ok:{stale_source}", f"write({k}) returned normally although the connection was lost: it was released by a stale ok ({src})"))
@@ -229,18 +230,6 @@ def check_execution(cfg, ex, marks, leaked):
             continue
         term = tag_index(lambda t: t[0] in ("ack", "err") and t[1] == k)
         own_consumed = term is not None and consumed > term
-        if b in ERRORS:
-            if exc is None:
-                # returned normally: was it released by a stale ok?
-                src = releasing_source(produced, consumed, k)
-                if src and not own_consumed:
-                    stale_source = stale_source or src
-                    P.append((f"stale-ok:{stale_source}", f"write({k}) [{b}] returned before its own reply was consumed (released by {src}); the error surfaces later or never"))
-                else:
-                    P.append(("error-reply-not-raised", f"write({k}) returned normally although the device answered {b}"))
-            elif not isinstance(exc, DeviceError):
-                P.append(("error-reply-wrong-exception", f"write({k}) raised {exc!r} for device reply {b}"))
-            continue
         # an unsolicited alarm consumed before this call returned surfaces here (at the latest)
         async_seen = [i for i, (_, t) in enumerate(produced) if t[0] == "async-err" and i < consumed and i not in surfaced]
         if async_seen and exc is not None and isinstance(exc, DeviceError) and "ALARM:9" in str(exc):
@@ -251,6 +240,18 @@ def check_execution(cfg, ex, marks, leaked):
                 # shifted by one (known finding), the alarm itself surfaced where it should
                 stale_source = stale_source or "shift-after-unsolicited-alarm"
             continue
+        if b in ERRORS:
+            if exc is None:
+                # returned normally: was it released by a stale ok?
+                src = releasing_source(produced, consumed, k, first_start)
+                if src and not own_consumed:
+                    stale_source = stale_source or src
+                    P.append((f"stale-ok:{stale_source}", f"write({k}) [{b}] returned before its own reply was consumed (released by {src}); the error surfaces later or never"))
+                else:
+                    P.append(("error-reply-not-raised", f"write({k}) returned normally although the device answered {b}"))
+            elif not isinstance(exc, DeviceError):
+                P.append(("error-reply-wrong-exception", f"write({k}) raised {exc!r} for device reply {b}"))
+            continue
         # normal behaviours
         if exc is not None:
             # an exception on a healthy statement: caused by an earlier error reply surfacing late?
@@ -260,7 +261,7 @@ def check_execution(cfg, ex, marks, leaked):
                 P.append(("spurious-exception", f"write({k}) [{b}] raised {exc!r}"))
             continue
         if not own_consumed:
-            src = releasing_source(produced, consumed, k)
+            src = releasing_source(produced, consumed, k, first_start)
             if src or stale_source:
                 stale_source = stale_source or src
                 P.append((f"stale-ok:{stale_source}", f"write({k}) returned after {consumed} replies were consumed; its own acknowledgement is reply #{term}: released by a stale ok ({src or 'shifted by the earlier stale ok'})"))
@@ -292,9 +293,12 @@ def check_execution(cfg, ex, marks, leaked):
     # the stale ok of the second handshake, which no caller can drain because write() connects by itself)
     if "second_session" in marks and lost_k is None:
         rec = marks["second_session"]
-        if "G1 X9" not in fw.user[len(want):] and sent == want:
+        gave_up = S.timeouts_fired and rec["exc"] is not None and "timed out" in str(rec["exc"])
+        if gave_up:
+            pass        # the connection time-out of the second session was made to expire: connecting is entitled to give up
+        elif "G1 X9" not in fw.user[len(want):] and sent == want:
             P.append(("second-session-statement-not-delivered", f"after disconnect + implicit reconnect the device received {fw.user}"))
-        if rec["exc"] is not None and not stale_source and not any(b in ERRORS for b in beh):
+        if rec["exc"] is not None and not gave_up and not stale_source and not any(b in ERRORS for b in beh):
             P.append(("second-session-raised", f"write() in the second session raised {rec['exc']!r}"))
     # (f) disconnect(wait=True)
     if "disconnect_exc" in marks and lost_k is None:
@@ -312,7 +316,7 @@ def check_execution(cfg, ex, marks, leaked):
     return P
 
 
-def releasing_source(produced, consumed, k):
+def releasing_source(produced, consumed, k, first_start=None):
     """Which reply released write(k)? Look at the last acknowledging line among the consumed ones that does not
     belong to statement k."""
     for i in range(min(consumed, len(produced)) - 1, -1, -1):
@@ -333,6 +337,15 @@ def releasing_source(produced, consumed, k):
             # extra releasing line seen so far (an unsolicited alarm also releases the waiter)
             if any(tt[0] == "async-err" for _, tt in produced[:i]):
                 return "shift-after-unsolicited-alarm"
+            # an extra acknowledging line that was consumed after the caller's first write() had started released that
+            # earlier call; its own acknowledgement then arrived late and released this one (acknowledgements shifted by one)
+            if first_start is not None:
+                for j in range(first_start, i):
+                    tt = produced[j][1]
+                    if tt[0] == "hs":
+                        return "handshake-M110" if "M110" in tt[1] else "handshake-G4P0"
+                    if tt[0] == "extra-ok":
+                        return "ok-after-Error"
             return "reply-of-earlier-statement"
         return None
     return None
